@@ -40,6 +40,16 @@ def c17(tier, rng, gw):
             lim = (ISIZE_MAX // s).bit_length()
             for k in range(max(0, lim - 3), min(63, lim + 2)):
                 q.append(f"layout {s} {a} {1 << k}")
+    # the isize::MAX boundary, byte by byte: (element size, bucket count) pairs whose total table size
+    # (elements + control bytes, before and after padding to the alignment) lies within 48 bytes of
+    # isize::MAX -- in particular tables smaller than the alignment, where the total is NOT a multiple of it
+    for k in range(0, 40):
+        b = 1 << k
+        for a in (gw, 16, 64):
+            for d in range(-48, 49, 1 if k < 6 else 7):
+                s = (ISIZE_MAX + d - b - gw) // b
+                if s >= 1:
+                    q.append(f"layout {s} {max(a, gw)} {b}")
     # probe sequences: every table size up to 2^12 (quick) / 2^16 (thorough) with several starts
     kmax = 10 if tier == "quick" else 15
     for k in range(0, kmax + 1):
